@@ -533,11 +533,16 @@ func (d *Demuxer) parseSingleExtendedFrame(payload []byte) error {
 	if !hasAlpha {
 		hasAlpha = frameDataHasAlpha(imageData)
 	}
+	// The frame's size is that of its bitstream; the VP8X canvas may be larger.
+	width, height := d.features.Width, d.features.Height
+	if fw, fh := frameDimensions(imageData); fw > 0 && fh > 0 {
+		width, height = fw, fh
+	}
 	d.frames = []FrameInfo{{
 		Data:       imageData,
 		AlphaData:  alphaData,
-		Width:      d.features.Width,
-		Height:     d.features.Height,
+		Width:      width,
+		Height:     height,
 		HasAlpha:   hasAlpha,
 		IsKeyframe: true,
 	}}
